@@ -6,8 +6,8 @@ EXTENDS Cache, TLC, Json
 CONSTANT Family      \* "quick" | "thorough"
 
 NoHint == [mode |-> "none", list |-> <<>>]
-MkU(rank, fav, hint, ex2) ==
-  [pkg |-> << [exists |-> TRUE, cands |-> <<1, 2, 3>>, rank |-> rank, favored |-> fav, locked |-> 0,
+MkU(cands, rank, fav, hint, ex2) ==
+  [pkg |-> << [exists |-> TRUE, cands |-> cands, rank |-> rank, favored |-> fav, locked |-> 0,
                excluded |-> <<>>, hint |-> hint],
               [exists |-> ex2, cands |-> IF ex2 THEN <<4>> ELSE <<>>, rank |-> IF ex2 THEN <<4>> ELSE <<>>,
                favored |-> 0, locked |-> 0, excluded |-> <<>>, hint |-> NoHint] >>,
@@ -26,7 +26,9 @@ Ranks == IF Family = "quick" THEN {<<3, 1, 2>>} ELSE {<<1, 2, 3>>, <<3, 1, 2>>, 
 Favs  == IF Family = "quick" THEN {0, 2} ELSE {0, 1, 2, 3}
 Hints == {NoHint, [mode |-> "all", list |-> <<>>], [mode |-> "some", list |-> <<2>>]}
 Ex2   == IF Family = "quick" THEN {TRUE} ELSE {TRUE, FALSE}
-Universes == {MkU(r, f, h, e) : r \in Ranks, f \in Favs, h \in Hints, e \in Ex2}
+\* the order in which get_candidates lists the candidates (ascending ids, and not)
+CandOrders == IF Family = "quick" THEN {<<1, 2, 3>>, <<3, 1, 2>>} ELSE {<<1, 2, 3>>, <<3, 1, 2>>, <<3, 2, 1>>}
+Universes == {MkU(c, r, f, h, e) : c \in CandOrders, r \in Ranks, f \in Favs, h \in Hints, e \in Ex2}
 
 \* the query alphabet
 QMatch == {1, 2}
@@ -36,7 +38,7 @@ QDepS  == {1}
 
 VARIABLE started
 \* a universe of the family is identified by its parameters
-UKey(UU) == <<UU.pkg[1].rank, UU.pkg[1].favored, UU.pkg[1].hint.mode, UU.pkg[2].exists>>
+UKey(UU) == <<UU.pkg[1].cands, UU.pkg[1].rank, UU.pkg[1].favored, UU.pkg[1].hint.mode, UU.pkg[2].exists>>
 Key  == ToJson(<<UKey(U), cC, cD, cM, cN, cS>>)
 KeyP == ToJson(<<UKey(U'), cC', cD', cM', cN', cS'>>)
 ObsP == [val |-> last'.val, calls |-> last'.calls,
